@@ -1,6 +1,6 @@
 (* C06 — Every stochastic trajectory is a feasible reaction path. *)
 From Coq Require Import ZArith Reals List Bool Arith.
-From BS Require Import Base.Arith Model.Term Model.Propensity Model.Interface Model.Rules Model.Random Model.SSA
+From BS Require Import Base.Arith Model.Term Model.Propensity Model.Interface Model.Rules Model.Random Model.Queue Model.SSA Proofs.DelayAccounting
                        Spec.RateLaws Proofs.RateProofs Proofs.SSAProofs Proofs.SSAReal Proofs.FeasibleProofs Proofs.BuilderProofs.
 Import ListNotations.
 
@@ -54,9 +54,25 @@ Theorem C06_massaction_supplied :
   forall s, In s rs -> (count_occ Nat.eq_dec rs s <= cnt s)%nat.
 Proof. exact massaction_positive_means_supplied. Qed.
 
-(* The delay-capable and volume simulators share record / fire / deliver with this loop; their
-   lattice statement is not mechanised (C06_partial): it is covered by the stream replay and the
-   integer-programme oracle of the harness. *)
+(* Delay-capable simulator (reals; every stream, grid, fuel, queue size; no rules): every reported row is
+   x0 + S n + Sd d with natural counts d_r <= n_r (lattice s row unfolds to exactly that). *)
+Theorem C06_delay_rows_on_lattice :
+  forall (s : sim R) ncols fuel gfuel qdt qt ts u pos st,
+  sm_rules s = [] -> length (sm_x0 s) = length (si_S (sm_if s)) -> length (si_S (sm_if s)) = length (si_Sd (sm_if s)) ->
+  (0 < ncols)%nat ->
+  dssa_simulate ArithR (2 * PI)%R fuel gfuel s (q_make ArithR 0%R (length (si_props (sm_if s))) ncols qdt qt) ts u pos = Done st ->
+  Forall (fun row => exists n d : nat -> nat,
+            (forall r, (r < length (si_props (sm_if s)))%nat -> (d r <= n r)%nat) /\
+            forall i, nth i row 0%R = (nth i (sm_x0 s) 0 +
+              DelayAccounting.sumR (fun r => INR (n r) * IZR (sget (si_S (sm_if s)) i r) + INR (d r) * IZR (sget (si_Sd (sm_if s)) i r)) (length (si_props (sm_if s))))%R)
+         (ds_rows st).
+Proof.
+  intros s ncols fuel gfuel qdt qt ts u pos st H1 H2 H3 Hn H.
+  exact (proj1 (delay_run_accounting s H1 H2 H3 ncols fuel gfuel qdt qt ts u pos st Hn H)).
+Qed.
+
+(* The volume simulator shares record / fire with these loops; its lattice statement is not
+   mechanised (C06_partial): it is covered by the stream replay and the integer-programme oracle. *)
 
 Print Assumptions C06_rows_are_paths.
 Print Assumptions C06_conservation.
@@ -65,3 +81,4 @@ Print Assumptions C06_absorbing.
 Print Assumptions C06_safe_never_starves.
 Print Assumptions C06_requirement_sufficient.
 Print Assumptions C06_massaction_supplied.
+Print Assumptions C06_delay_rows_on_lattice.
